@@ -248,11 +248,14 @@ def ncpu():
 
 
 _POOL_FN = None
+_POOL_ITEMS = None
 
 
-def _pool_call(arg):
+def _pool_call(idx):
     try:
-        return ("ok", _POOL_FN(arg))
+        return ("ok", _POOL_FN(_POOL_ITEMS[idx]))
+    except CheckerError as e:
+        return ("err", "CheckerError: " + str(e))
     except Exception:
         return ("err", traceback.format_exc())
 
@@ -260,7 +263,7 @@ def _pool_call(arg):
 def pmap(fn, items, chunks=None, procs=None):
     """Map fn over items in forked worker processes (fn may be a closure: inherited by fork).
     A traceback in a worker is a checker crash, never a violation."""
-    global _POOL_FN
+    global _POOL_FN, _POOL_ITEMS
     items = list(items)
     procs = procs or ncpu()
     if len(items) <= 1 or procs == 1:
@@ -269,10 +272,12 @@ def pmap(fn, items, chunks=None, procs=None):
             out.append(fn(it))
         return out
     _POOL_FN = fn
+    _POOL_ITEMS = items          # inherited by fork: items and fn need not be picklable, only results
     ctxm = mp.get_context("fork")
     with ctxm.Pool(min(procs, len(items))) as pool:
-        res = pool.map(_pool_call, items, chunksize=chunks or max(1, len(items) // (procs * 8)))
+        res = pool.map(_pool_call, range(len(items)), chunksize=chunks or max(1, len(items) // (procs * 8)))
     _POOL_FN = None
+    _POOL_ITEMS = None
     out = []
     for tag, val in res:
         if tag == "err":
